@@ -851,6 +851,42 @@ func parseResultsTestedBeforeUse(c *core.Ctx) {
 	if len(sources) == 0 {
 		core.Undecidedf("parser.parseExpression / parseNode not found")
 	}
+	// every other parse method that can return nil: one result of an ast type and a path that returns nil
+	for _, m := range core.Methods(parserT) {
+		sf := p.SSAFunc(m)
+		if sf == nil || sf.Blocks == nil || sf.Signature.Results().Len() != 1 || !strings.HasPrefix(m.Name(), "parse") {
+			continue
+		}
+		rt := sf.Signature.Results().At(0).Type()
+		if pt, ok := rt.(*types.Pointer); ok {
+			rt = pt.Elem()
+		}
+		nt, ok := rt.(*types.Named)
+		if !ok || nt.Obj().Pkg() == nil || nt.Obj().Pkg().Path() != pkgPath("ast") {
+			continue
+		}
+		already, returnsNil := false, false
+		for _, s0 := range sources {
+			if s0 == sf {
+				already = true
+			}
+		}
+		for _, b := range sf.Blocks {
+			for _, in := range b.Instrs {
+				if ret, ok := in.(*ssa.Return); ok && len(ret.Results) == 1 {
+					for _, o := range core.Origins(ret.Results[0]) {
+						if k, ok := o.(*ssa.Const); ok && k.IsNil() {
+							returnsNil = true
+						}
+					}
+				}
+			}
+		}
+		if !already && returnsNil {
+			sources = append(sources, sf)
+		}
+	}
+	errorful := errorfulNilSources(p, sources)
 	isSource := func(f *ssa.Function) bool {
 		for _, s := range sources {
 			if s == f {
@@ -872,6 +908,7 @@ func parseResultsTestedBeforeUse(c *core.Ctx) {
 				type use struct {
 					call *ssa.Call
 					at   *ssa.BasicBlock // where the value must already be known non-nil
+					elem ssa.Instruction // or: the value becomes an element of a list / map that a node is built from
 				}
 				var uses []use
 				var visit func(v ssa.Value, d int, at *ssa.BasicBlock)
@@ -890,7 +927,23 @@ func parseResultsTestedBeforeUse(c *core.Ctx) {
 								if blk == nil {
 									blk = x.Block()
 								}
-								uses = append(uses, use{x, blk})
+								uses = append(uses, use{x, blk, nil})
+							}
+						case *ssa.MapUpdate:
+							if x.Key == v || x.Value == v {
+								blk := at
+								if blk == nil {
+									blk = x.Block()
+								}
+								uses = append(uses, use{nil, blk, x})
+							}
+						case *ssa.Store:
+							if _, isElem := x.Addr.(*ssa.IndexAddr); isElem && x.Val == v {
+								blk := at
+								if blk == nil {
+									blk = x.Block()
+								}
+								uses = append(uses, use{nil, blk, x})
 							}
 						case *ssa.ChangeInterface:
 							visit(x, d+1, at)
@@ -900,7 +953,20 @@ func parseResultsTestedBeforeUse(c *core.Ctx) {
 							// the value enters the phi at the end of the predecessor that carries it
 							for i, e := range x.Edges {
 								if e == v && at == nil {
-									visit(x, d+1, x.Block().Preds[i])
+									// the edge itself may be the non-nil branch of a test of v
+									pred := x.Block().Preds[i]
+									if iff, ok := pred.Instrs[len(pred.Instrs)-1].(*ssa.If); ok {
+										if bo, ok := iff.Cond.(*ssa.BinOp); ok && (bo.X == v || bo.Y == v) && (isNilValue(bo.X) || isNilValue(bo.Y)) {
+											nonNil := pred.Succs[1]
+											if bo.Op == token.NEQ {
+												nonNil = pred.Succs[0]
+											}
+											if (bo.Op == token.EQL || bo.Op == token.NEQ) && nonNil == x.Block() {
+												continue
+											}
+										}
+									}
+									visit(x, d+1, pred)
 								}
 							}
 						}
@@ -911,7 +977,12 @@ func parseResultsTestedBeforeUse(c *core.Ctx) {
 					u := uu.call
 					n++
 					k++
-					guarded := nonNilGuardDominates(call, uu.at) || nilBranchReportsError(call)
+					guarded := nonNilGuardDominates(call, uu.at) || nilBranchReportsError(call) || errorful[call.Call.StaticCallee()]
+					if u == nil {
+						c.Check(guarded, core.SSAName(fn)+"|"+call.Call.StaticCallee().Name()+"#"+itoa(k)+"|nil-tested-before-element", p.Pos(uu.elem.Pos()),
+							fn.Name()+" makes the result of "+call.Call.StaticCallee().Name()+" an element of the list / map a node is built from only after testing it for nil")
+						continue
+					}
 					c.Check(guarded, core.SSAName(fn)+"|"+call.Call.StaticCallee().Name()+"#"+itoa(k)+"|nil-tested-before-"+u.Call.StaticCallee().Name(), p.Pos(u.Pos()),
 						fn.Name()+" gives the result of "+call.Call.StaticCallee().Name()+" to ast."+u.Call.StaticCallee().Name()+" only after testing it for nil")
 				}
@@ -1047,4 +1118,116 @@ func nilPathReaches(start *ssa.BasicBlock, check *ssa.If, nilOn int, target ssa.
 		return false
 	}
 	return dfs(start, init, 0)
+}
+
+// errorfulNilSources: the parse methods whose every nil result comes with a
+// recorded parse error (Parse then discards the tree): each `return nil` is
+// reached through a call of an error-recording method, the error branch of a
+// call that records one (nextToken, expectPeek), or the nil branch of another
+// such method's result.  Computed to a fixpoint.
+func errorfulNilSources(p *core.Program, sources []*ssa.Function) map[*ssa.Function]bool {
+	errorful := map[*ssa.Function]bool{}
+	recordsOnFailure := func(f *ssa.Function) bool {
+		if f == nil {
+			return false
+		}
+		switch f.Name() {
+		case "nextToken", "expectPeek":
+			return true
+		}
+		return false
+	}
+	justified := func(fn *ssa.Function, ret *ssa.BasicBlock) bool {
+		for _, b := range fn.Blocks {
+			if b != ret && !b.Dominates(ret) {
+				continue
+			}
+			for _, in := range b.Instrs {
+				if ci, ok := in.(ssa.CallInstruction); ok {
+					if cal := ci.Common().StaticCallee(); cal != nil && strings.Contains(cal.Name(), "Error") {
+						return true
+					}
+				}
+			}
+			// b is the failing branch of a recording call, or the nil branch of an errorful source
+			for _, pred := range b.Preds {
+				if len(pred.Succs) != 2 {
+					continue
+				}
+				iff, ok := pred.Instrs[len(pred.Instrs)-1].(*ssa.If)
+				if !ok {
+					continue
+				}
+				isTrue := pred.Succs[0] == b
+				cond := iff.Cond
+				if u, ok := cond.(*ssa.UnOp); ok && u.Op == token.NOT {
+					cond, isTrue = u.X, !isTrue
+				}
+				switch x := cond.(type) {
+				case *ssa.Call:
+					if recordsOnFailure(x.Call.StaticCallee()) && !isTrue && len(b.Preds) == 1 {
+						return true
+					}
+				case *ssa.BinOp:
+					if x.Op != token.EQL && x.Op != token.NEQ {
+						continue
+					}
+					var v ssa.Value
+					if isNilValue(x.Y) {
+						v = x.X
+					} else if isNilValue(x.X) {
+						v = x.Y
+					}
+					call, ok := v.(*ssa.Call)
+					if !ok || len(b.Preds) != 1 {
+						continue
+					}
+					nilBranch := (x.Op == token.EQL) == isTrue
+					cal := call.Call.StaticCallee()
+					if isErrorType(call.Type()) && recordsOnFailure(cal) && !nilBranch {
+						return true
+					}
+					if errorful[cal] && nilBranch {
+						return true
+					}
+				}
+			}
+		}
+		return false
+	}
+	for changed := true; changed; {
+		changed = false
+		for _, fn := range sources {
+			if errorful[fn] {
+				continue
+			}
+			all, any := true, false
+			for _, b := range fn.Blocks {
+				for _, in := range b.Instrs {
+					ret, ok := in.(*ssa.Return)
+					if !ok || len(ret.Results) != 1 {
+						continue
+					}
+					isNil := false
+					for _, o := range core.Origins(ret.Results[0]) {
+						if k, ok := o.(*ssa.Const); ok && k.IsNil() {
+							isNil = true
+						}
+					}
+					if !isNil {
+						continue
+					}
+					any = true
+					if !justified(fn, b) {
+						all = false
+					}
+				}
+			}
+			if any && all {
+				errorful[fn] = true
+				changed = true
+			}
+		}
+	}
+	return errorful
 }
